@@ -253,6 +253,9 @@ class ConfigValidator:
             for i in item_list:
                 if i in ("", " "):
                     raise self.validation_error(item, validation_failure_info, "List contains an empty element.", 15)
+                if i is None and validation.startswith("subconfig("):
+                    # an element without settings is an empty sub-config (defaults are filled in, required keys enforced)
+                    i = {}
                 new_list.append(self.validate_item(i, validation, validation_failure_info))
 
             return new_list
@@ -299,6 +302,9 @@ class ConfigValidator:
             raise AssertionError("Invalid type {}".format(item_type))
 
         for k, v in item.items():
+            if v is None and validators[1].startswith("subconfig("):
+                # an entry without settings is an empty sub-config (defaults are filled in, required keys enforced)
+                v = {}
             item_dict[self.validate_item(k, validators[0], validation_failure_info)] = (
                 self.validate_item(v, validators[1], ValidationPath(validation_failure_info, k)))
         return item_dict
